@@ -158,6 +158,7 @@ inductive Act where
   | giveUp (t : Nat)         -- return an error (after the failed attempt) and release
   | finish (t : Nat)         -- unreachable for requests; messages: release after the write
   | invalidate               -- OnDisconnect's goroutine, when it holds the lock: reset + drop the stream
+  | quit (t : Nat)           -- `lk.Lock(ctx)` fails (context ended while waiting): return without ever holding the lock
   deriving DecidableEq, Repr
 
 /-- `none`: the action is not enabled -/
@@ -180,10 +181,16 @@ def lstep (s : LState) : Act → Option LState
     if s.holder == some t && pcOf s t == .locked then some { setPc s t (.done none) with holder := none } else none
   | .finish _ => none
   | .invalidate => if s.holder.isNone then some { s with pending := none } else none
+  | .quit t => if pcOf s t == .waiting then some (setPc s t (.done none)) else none
 
 def lrun (s : LState) : List Act → Option LState
   | [] => some s
   | a :: as => match lstep s a with | some s' => lrun s' as | none => none
+
+/-- the seeded variant of C11-m5: the deferred `Unlock` is registered before the result of `Lock(ctx)` is looked at, so a
+    caller that gives up while waiting releases the lock of whoever holds it -/
+def quitUnlocking (s : LState) (t : Nat) : Option LState :=
+  if pcOf s t == .waiting then some { setPc s t (.done none) with holder := none } else none
 
 /-- the seeded variant of C11-m1: a caller whose context ended after the write returns without resetting the stream -/
 def abandon (s : LState) (t : Nat) : Option LState :=
